@@ -53,7 +53,12 @@ def canon_session(sess):
         if e[0] == "START":
             start = e[1]
         elif e[0] == "ABS":
-            items.append((canon(e[1]), bool(e[2])))
+            if e[1][0] == "CAT":
+                # a buffer assembled by appends and absorbed once is the concatenation of what was appended
+                for t in e[1][2]:
+                    items.append((canon(t), bool(e[2])))
+            else:
+                items.append((canon(e[1]), bool(e[2])))
         elif e[0] == "DELEGATE":
             items.append(("->%s(%s)" % (e[1], e[2]), False))
         elif e[0] == "CLONE":
@@ -180,7 +185,7 @@ def classify(start, items, fn_path):
     for name, (pat, owner, descr) in PATTERNS.items():
         if name == "FV-TRIAL":
             continue
-        if match(items, pat) or match(items, loop_variant(pat)):
+        if match(items, pat) or match(items, loop_variant(pat)) or match(items, [(w, False) for w, r in pat]):
             out.append(name)
     if not out and "thread_optimize" in fn_path:
         out.append("FV-TRIAL")
@@ -218,6 +223,10 @@ def closed_world(chk, F, sessions, tag, prefix):
         wire = [c for c in cls if c in ("PBLC", "MESG", "LEAF", "INTR", "OTSKEY", "PRNG", "TOPSEED0", "TOPSEED1", "TOPSEED2", "DAUX", "HMAC-IPAD", "HMAC-OPAD")]
         if wire:
             okst = st in FRESH_STARTS or (st or "").startswith("after:")
+            if st == "captured":
+                # a hasher captured by a closure: fresh at every call if each session of the closure ends by resetting it
+                ends = [e2 for f2, e2, b2, st2, it2, cl2, r2 in sessions if f2.path == f.path]
+                okst = all(e2 in ("finalize_reset",) for e2 in ends)
             chk.ob(prefix + ".preimage-starts-on-a-fresh-hasher", "%s|%s|%s%s" % (f.key, wire[0], st, tag), okst,
                    "%s computes %s on a hasher that is not visibly fresh (start: %s)" % (f.path, wire[0], st), where=f.loc(b))
     chk.count("hash_sessions", n)
